@@ -302,6 +302,9 @@ pub enum LOp {
     /// stay silent for three session timeouts while cleanup() is called every millisecond, as an
     /// application loop does
     ExpirePolled,
+    /// the same silence with cleanup() called back to back (no sleep in between): thousands of calls
+    /// around the instant at which the timeout elapses
+    ExpireSpin,
 }
 
 #[derive(Debug, Clone, Serialize, Deserialize)]
@@ -414,6 +417,23 @@ pub fn run_listen(c: &ListenCase) -> CaseResult {
                     mr.cleanup(t0() + Duration::from_millis(t));
                 }
             }
+            LOp::ExpireSpin => {
+                if c.session_timeout {
+                    let until = std::time::Instant::now() + Duration::from_millis(timeout_ms * 2 + 4);
+                    while std::time::Instant::now() < until {
+                        mr.cleanup(t0() + Duration::from_millis(t));
+                    }
+                    t += 1;
+                    let ks: Vec<usize> = live.iter().filter(|(_, v)| **v).map(|(k, _)| *k).collect();
+                    for k in ks {
+                        live.insert(k, false);
+                        expected.push((false, k));
+                        closed_once[k] = true;
+                    }
+                } else {
+                    mr.cleanup(t0() + Duration::from_millis(t));
+                }
+            }
             LOp::Cleanup => {
                 // cleanup without waiting: with a timeout configured a session may or may not have
                 // expired (wall clock); only used when no timeout is configured
@@ -483,6 +503,7 @@ pub fn listen_strategy() -> BoxedStrategy<ListenCase> {
         2 => any::<u8>().prop_map(LOp::Close),
         1 => Just(LOp::Expire),
         1 => Just(LOp::ExpirePolled),
+        2 => Just(LOp::ExpireSpin),
         1 => Just(LOp::Cleanup),
     ];
     (proptest::collection::vec((0usize..corpus::CORPUS_TOTAL, prop_oneof![Just(1u64), Just(2), Just(9)], 0usize..4), 1..4), proptest::collection::vec(op, 1..14), prop_oneof![3 => Just(false), 1 => Just(true)])
@@ -529,7 +550,7 @@ pub fn run(eng: &mut Engine) {
     eng.generated(
         PartCfg::new(
             "listener",
-            "1-3 sessions; operations push-n-packets / close-session packet / expire (sleep + cleanup) / expire-polled (cleanup every millisecond during the silence) / cleanup, then drop; per (endpoint, TSI) the listener trace must be (open close)*, equal the model's creations and ends, and be closed after the drop; non-trivial = a session was closed and re-created; distinct by case",
+            "1-3 sessions; operations push-n-packets / close-session packet / expire (sleep + cleanup) / expire-polled (cleanup every millisecond during the silence) / expire-spin (cleanup back to back during the silence) / cleanup, then drop; per (endpoint, TSI) the listener trace must be (open close)*, equal the model's creations and ends, and be closed after the drop; non-trivial = a session was closed and re-created; distinct by case",
             tier.pick(30_000, 600_000),
         ),
         listen_strategy,
